@@ -33,6 +33,7 @@ CheckFac2(e) ==
        nt_cdiv |-> Eq(e, "nt_cdiv", IF z THEN None ELSE Some(q)), nt_crem |-> Eq(e, "nt_crem", IF z THEN None ELSE Some(r)),
        nt_cdive |-> Eq(e, "nt_cdive", IF z THEN None ELSE Some(q)), nt_creme |-> Eq(e, "nt_creme", IF z THEN None ELSE Some(r)),
        nt_dive |-> DivLike("nt_dive", q), nt_reme |-> DivLike("nt_reme", r),
+       nt_divreme |-> DivLike("nt_divreme", <<q, r>>), nt_cdivreme |-> Eq(e, "nt_cdivreme", IF z THEN None ELSE Some(<<q, r>>)),
        nt_sat_add |-> Eq(e, "nt_sat_add", SatAdd(a, b, n)), nt_sat_sub |-> Eq(e, "nt_sat_sub", SatSub(a, b)),
        nt_sadd |-> Eq(e, "nt_sadd", SatAdd(a, b, n)), nt_ssub |-> Eq(e, "nt_ssub", SatSub(a, b)),
        nt_smul |-> Eq(e, "nt_smul", IF po THEN MaxU(n) ELSE p),
@@ -51,6 +52,15 @@ CheckFac2(e) ==
        \* Integer::lcm cannot express None: it panics exactly there
        ni_lcm |-> IF Has(e, "in_lcm") /\ Len(e.in_lcm) = 1 THEN Eq(e, "ni_lcm", e.in_lcm[1]) ELSE Panics(e, "ni_lcm"),
        ni_egcd |-> Same(e, "ni_egcd", "in_egcd"),
+       \* provided method: (gcd, lcm) is the pair of the single results and panics exactly where lcm does (extended_gcd_lcm needs Signed)
+       ni_gcd_lcm |-> IF Has(e, "in_lcm") /\ Len(e.in_lcm) = 1 /\ Has(e, "in_gcd")
+                      THEN Eq(e, "ni_gcd_lcm", <<e.in_gcd, e.in_lcm[1]>>) ELSE Panics(e, "ni_gcd_lcm"),
+       \* next / previous multiple: a zero divisor panics; where the multiple fits it is THE multiple (the provided method wraps
+       \* where the inherent next_multiple_of panics: left open)
+       ni_next_multiple |-> IF z THEN Panics(e, "ni_next_multiple")
+                            ELSE LET nm == IF IsZero(r) THEN a ELSE Add(a, Sub(b, r)) IN Lt2(nm, n) => Eq(e, "ni_next_multiple", nm),
+       ni_prev_multiple |-> IF z THEN Panics(e, "ni_prev_multiple") ELSE Eq(e, "ni_prev_multiple", Sub(a, r)),
+       ni_divides |-> Eq(e, "ni_divides", IF z THEN IsZero(a) ELSE IsZero(r)),
        in_divrem |-> IF z THEN Panics(e, "in_divrem") ELSE okqr,
        in_gcd |-> Has(e, "in_gcd") /\ Has(e, "in_lcm") /\ Has(e, "in_egcd"),      \* values are C12's subject
        ct_eq |-> Eq(e, "ct_eq", c = 0), ct_ne |-> Eq(e, "ct_ne", c # 0),
@@ -87,6 +97,11 @@ CheckFac1(e) ==
        nt_to_i64 |-> Eq(e, "nt_to_i64", ToPrim(a, 63)), nt_to_u64 |-> Eq(e, "nt_to_u64", ToPrim(a, 64)),
        nt_to_i128 |-> Eq(e, "nt_to_i128", ToPrim(a, 127)), nt_to_u128 |-> Eq(e, "nt_to_u128", ToPrim(a, 128)),
        nt_to_u8 |-> Eq(e, "nt_to_u8", ToPrim(a, 8)), nt_to_i8 |-> Eq(e, "nt_to_i8", ToPrim(a, 7)),
+       nt_to_u16 |-> Eq(e, "nt_to_u16", ToPrim(a, 16)), nt_to_i16 |-> Eq(e, "nt_to_i16", ToPrim(a, 15)),
+       nt_to_u32 |-> Eq(e, "nt_to_u32", ToPrim(a, 32)), nt_to_i32 |-> Eq(e, "nt_to_i32", ToPrim(a, 31)),
+       nt_to_usize |-> Eq(e, "nt_to_usize", ToPrim(a, 64)), nt_to_isize |-> Eq(e, "nt_to_isize", ToPrim(a, 63)),
+       nt_is_one |-> Eq(e, "nt_is_one", a = Mod2(One, n)),
+       nt_set_zero |-> Eq(e, "nt_set_zero", Zero), nt_set_one |-> Eq(e, "nt_set_one", Mod2(One, n)),
        nt_to_le |-> Eq(e, "nt_to_le", le), nt_to_be |-> Eq(e, "nt_to_be", be),
        nt_from_le |-> Eq(e, "nt_from_le", a), nt_from_be |-> Eq(e, "nt_from_be", a),
        nt_numcast |-> Eq(e, "nt_numcast", IF Lt2(a, 128) THEN Some(a) ELSE None),
